@@ -257,6 +257,59 @@ def family_section(ctx):
                 break
 
 
+def color_layer_section(ctx):
+    """colour fonts built from colour LAYERS (colorPalettes + colorLayerMapping, per glyph or font-wide): the layer glyphs that the
+    pre-processor copies into the glyph set as `<name>.<layer>` alternates -- those named by the mapping and those reached as
+    component bases inside the layer -- declare no code points, whatever the layer's own glyphs carry.  The character map is
+    exactly the default layer's, the alternates follow the source glyphs in the glyph order"""
+    import ufo2ft
+    from fontTools.ttLib import TTFont
+    PAL, MAP = "com.github.googlei18n.ufo2ft.colorPalettes", "com.github.googlei18n.ufo2ft.colorLayerMapping"
+    sq = lambda x, d: [[(Fr(x), Fr(0), "line"), (Fr(x + d), Fr(0), "line"), (Fr(x + d), Fr(d), "line"), (Fr(x), Fr(d), "line")]]
+    for i in range(ctx.budget(8, 16)):
+        lib = ["ufoLib2", "defcon"][i % 2]
+        flavor = ["ttf", "otf"][(i // 2) % 2]
+        # the layer's `b` carries: the same code point as the default `b` / other code points (BMP + supplementary) / none
+        layer_b = [[0x62], [0x42, 0x1F601], []][(i // 4) % 3]
+        per_glyph = (i // 2) % 4 != 3
+        desc = {"glyphs": [{"name": n, "unicodes": u, "width": Fr(600), "contours": sq(50, 400 + 10 * k), "components": [], "anchors": []}
+                           for k, (n, u) in enumerate([("a", [0x61]), ("b", [0x62]), ("c", [0x1F600])])],
+                "glyphOrder": ["a", "b", "c"], "lib": {PAL: [[(1.0, 0.0, 0.0, 1.0)]]}}
+        case = {"font": jsonable(desc), "lib": lib, "flavor": flavor, "layer_color1": {"a": "component of the layer's b", "b": {"unicodes": layer_b}},
+                "mapping": "per glyph (a only)" if per_glyph else "font-wide", "level": "colour layers"}
+        ctx.count(); ctx.klass("colour layers: %s mapping, layer b with %s" % ("per-glyph" if per_glyph else "font-wide", layer_b or "no code points"))
+        ctx.nontriv(("col", i, ctx.scale))
+        try:
+            font = build_font(desc, lib)
+            layer = font.newLayer("color1")
+            lb = layer.newGlyph("b"); lb.width = 600; lb.unicodes = list(layer_b)
+            pen = lb.getPen(); pen.moveTo((100, 100)); pen.lineTo((400, 100)); pen.lineTo((400, 400)); pen.lineTo((100, 400)); pen.closePath()
+            la = layer.newGlyph("a"); la.width = 600
+            la.getPen().addComponent("b", (1, 0, 0, 1, 0, 0))
+            if per_glyph:
+                font["a"].lib[MAP] = [("color1", 0)]
+            else:
+                font.lib[MAP] = [("color1", 0)]
+            tt = (ufo2ft.compileTTF if flavor == "ttf" else ufo2ft.compileOTF)(font, useProductionNames=False)
+            b = io.BytesIO(); tt.save(b); tt = TTFont(io.BytesIO(b.getvalue()))
+        except Exception as e:
+            ctx.spec_failure(case, "compile raised %s: %s\n%s" % (type(e).__name__, e, traceback.format_exc()[-1000:]))
+            continue
+        order = tt.getGlyphOrder()
+        if order[:4] != [".notdef", "a", "b", "c"] or sorted(order[4:]) != sorted(n for n in order[4:] if n.endswith(".color1")) or "a.color1" not in order:
+            ctx.spec_failure(dict(case, glyph_order=order), "glyph order of the colour font: %r" % order)
+            continue
+        want = {0x61: "a", 0x62: "b", 0x1F600: "c"}
+        for st in tt["cmap"].tables:
+            if st.isUnicode() and st.format in (4, 12):
+                exp = {u: n for u, n in want.items() if st.format == 12 or u <= 0xFFFF}
+                if dict(st.cmap) != exp:
+                    ctx.spec_failure(dict(case, cmap={hex(u): n for u, n in st.cmap.items()}),
+                                     "cmap format %d maps %r; the default layer's glyphs declare %r" % (
+                                         st.format, {hex(u): n for u, n in sorted(st.cmap.items())}, {hex(u): n for u, n in sorted(exp.items())}))
+                    break
+
+
 def observe_compiled(desc, flavor, lib, explicit_order):
     import ufo2ft
     from fontTools.ttLib import TTFont
@@ -299,6 +352,7 @@ def observe_compiled(desc, flavor, lib, explicit_order):
 def explore(ctx):
     renamed_cmap_section(ctx)
     family_section(ctx)
+    color_layer_section(ctx)
     notdef_option_section(ctx)
     # ---- function level
     cases, meta = [], []
